@@ -2,6 +2,7 @@ package main
 
 import (
 	"bytes"
+	"crypto/md5"
 	"fmt"
 	"io/ioutil"
 	"os"
@@ -37,18 +38,134 @@ func showTag(t httpflv.Tag) string {
 		tokNum(uint64(t.Header.Timestamp)), tokBytes(t.Raw))
 }
 
+func c11Scribble(b []byte) {
+	b = b[:cap(b)]
+	for i := range b {
+		b[i] = 0x5a
+	}
+}
+
+// digest of a byte string that may be large: length, md5, first and last 64 bytes
+func c11Digest(b []byte) string {
+	head, tail := b, b
+	if len(b) > 64 {
+		head, tail = b[:64], b[len(b)-64:]
+	}
+	return fmt.Sprintf("%s:%x:%s:%s", tokNum(uint64(len(b))), md5.Sum(b), hexOf(head), hexOf(tail))
+}
+
+// c11.rec <mode> <tags>: a recording through FlvFileWriter as lal's callers make it, read back with FlvFileReader.
+// mode tag  = WriteFlvHeader + WriteTag            (pullrtmp demo, innertest)
+//      raw  = WriteFlvHeader + WriteRaw per tag    (logic.Group recording path)
+//      rawh = WriteRaw(FlvHeader) + WriteRaw       (pullrtsp / modflvfile demos)
+//      mix  = WriteFlvHeader, WriteTag and WriteRaw alternating
+// Output in digest form (tags of 256 KiB, 1 MiB ...): file digest, number of tags read back, (type:size:ts:digest of raw).
+func c11Rec(a []string) string {
+	mode := a[0]
+	tags := parseTags(a[1])
+	f, err := ioutil.TempFile("", "lalprobe-flvrec-")
+	if err != nil {
+		panic(err)
+	}
+	name := f.Name()
+	old := 13 + 4096
+	for _, t := range tags {
+		old += 15 + len(t.payload)
+	}
+	_, _ = f.Write(bytes.Repeat([]byte{0xab}, old))
+	f.Close()
+	defer os.Remove(name)
+	var w httpflv.FlvFileWriter
+	if err := w.Open(name); err != nil {
+		panic(err)
+	}
+	var errs []string
+	note := func(what string, err error) {
+		if err != nil {
+			errs = append(errs, what)
+		}
+	}
+	if mode == "rawh" {
+		note("hdr", w.WriteRaw(httpflv.FlvHeader))
+	} else {
+		note("hdr", w.WriteFlvHeader())
+	}
+	for i, t := range tags {
+		raw := httpflv.PackHttpflvTag(t.t, t.ts, t.payload)
+		if mode == "tag" || (mode == "mix" && i%2 == 0) {
+			note("tag", w.WriteTag(httpflv.Tag{Raw: raw}))
+		} else {
+			note("raw", w.WriteRaw(raw))
+		}
+		// the caller's buffer is reused for the next message: the writer must not hold on to it
+		c11Scribble(raw)
+	}
+	note("dispose", w.Dispose())
+	if len(errs) > 0 {
+		return "err-write " + strings.Join(errs, ",")
+	}
+	content, _ := ioutil.ReadFile(name)
+	var r httpflv.FlvFileReader
+	if err := r.Open(name); err != nil {
+		panic(err)
+	}
+	defer r.Dispose()
+	var back []string
+	for {
+		tag, err := r.ReadTag()
+		if err != nil {
+			break
+		}
+		back = append(back, fmt.Sprintf("%s:%s:%s:%s", tokNum(uint64(tag.Header.Type)), tokNum(uint64(tag.Header.DataSize)),
+			tokNum(uint64(tag.Header.Timestamp)), c11Digest(tag.Raw)))
+	}
+	bs := "-"
+	if len(back) > 0 {
+		bs = strings.Join(back, ",")
+	}
+	return fmt.Sprintf("%s %d %s", c11Digest(content), len(back), bs)
+}
+
 func init() {
+	register("c11.rec", c11Rec)
 
 	register("c11.pack", func(a []string) string {
-		return tokBytes(httpflv.PackHttpflvTag(uint8(numTok(a[0])), uint32(numTok(a[1])), bytesTok(a[2])))
+		// the packed tag is held (gop cache, send queues) while the function packs the next message and the payload
+		// buffer is reused: it is printed only after another tag of the same size was packed and both payloads and
+		// the later result were overwritten
+		t, ts, p := uint8(numTok(a[0])), uint32(numTok(a[1])), bytesTok(a[2])
+		r1 := httpflv.PackHttpflvTag(t, ts, p)
+		p2 := make([]byte, len(p))
+		for i := range p2 {
+			p2[i] = p[i] ^ 0xff
+		}
+		r2 := httpflv.PackHttpflvTag(t^1, ts+1, p2)
+		c11Scribble(p)
+		c11Scribble(p2)
+		c11Scribble(r2)
+		return tokBytes(r1)
 	})
 	register("c11.read", func(a []string) string {
-		rd := bytes.NewReader(bytesTok(a[0]))
+		in := bytesTok(a[0])
+		rd := bytes.NewReader(in)
 		tag, err := httpflv.ReadTag(rd)
 		if err != nil {
 			return "err"
 		}
 		rest, _ := ioutil.ReadAll(rd)
+		// the tag read must not share memory with the source buffer, nor with the tag read next
+		in2 := make([]byte, len(in))
+		for i := range in2 {
+			in2[i] = in[i] ^ 0xff
+		}
+		if len(in2) >= 4 {
+			copy(in2[1:4], in[1:4]) // same data size
+		}
+		if tag2, err := httpflv.ReadTag(bytes.NewReader(in2)); err == nil {
+			c11Scribble(tag2.Raw)
+		}
+		c11Scribble(in)
+		c11Scribble(in2)
 		return fmt.Sprintf("ok %s %s %s", showTag(tag), tokBytes(tag.Payload()), tokBytes(rest))
 	})
 	register("c11.modts", func(a []string) string {
@@ -85,6 +202,7 @@ func init() {
 		for _, t := range tags {
 			raw := httpflv.PackHttpflvTag(t.t, t.ts, t.payload)
 			_ = w.WriteTag(httpflv.Tag{Raw: raw})
+			c11Scribble(raw) // the caller reuses its buffer
 		}
 		_ = w.Dispose()
 		content, _ := ioutil.ReadFile(name)
